@@ -2,7 +2,7 @@
 
 Kinds:  ('idx', 'row'|'col')   a row / column index (or array of them)
         ('cnt', 'row'|'col')   a number of rows / columns
-        ('rc',)                a (.., 2) array or pair of (row, column) values, as returned by Grid.cell2rowcol
+        ('rc', 2) / ('rc', 1)  an (n, 2) array / one pair of (row, column) values, as returned by Grid.cell2rowcol
 A conflict is recorded when a row quantity is compared, clamped (min / max) or offset against a column quantity, or when
 a cell number is built as row * nrows + col.  Products of a row and a column count (cell totals) are not conflicts."""
 from .formula import show
@@ -44,8 +44,8 @@ class Dims:
             return b
         if b is None:
             return a
-        if a == ('rc',) or b == ('rc',):
-            return a if a == ('rc',) else b
+        if a[0] == 'rc' or b[0] == 'rc':
+            return a if a[0] == 'rc' else b
         if a[1] != b[1]:
             self.note(e, a, b, why)
         return a
@@ -63,14 +63,14 @@ class Dims:
             if name == 'attr:ncols':
                 return ('cnt', 'col')
             if name in ('.cell2rowcol', 'cell2rowcol'):
-                return ('rc',)
+                return ('rc', 2)
             base = name.lstrip('.')
             if base in REDUCE and args:
                 d0 = sub[0]
-                if d0 == ('rc',):
+                if d0 and d0[0] == 'rc':
                     ax = kws.get('axis', args[1] if len(args) > 1 and not name.startswith('.') else (args[1] if len(args) > 1 else None))
-                    if ax is not None and ax[0] == 'num' and int(ax[1]) == 0:
-                        return ('rc',)
+                    if d0 == ('rc', 2) and ax is not None and ax[0] == 'num' and int(ax[1]) == 0:
+                        return ('rc', 1)
                     return None
                 if len(args) == 1 or name.startswith('.'):
                     if base in ('min', 'max') and len(args) >= 2 and not kws:
@@ -88,18 +88,24 @@ class Dims:
                 return r
             if name == 'getitem' and len(args) == 2:
                 d0, ix = sub[0], args[1]
-                if d0 == ('rc',):
+                if d0 and d0[0] == 'rc':
+                    if d0 == ('rc', 1):
+                        if ix[0] == 'num' and int(ix[1]) in (0, 1, -1, -2):
+                            return ('idx', 'row' if int(ix[1]) in (0, -2) else 'col')
+                        return None
                     if ix[0] == 'num':
-                        return ('idx', 'row' if int(ix[1]) == 0 else 'col')
-                    if ix[0] == 'tuple' and len(ix[1]) == 2 and ix[1][1][0] == 'num':
-                        return ('idx', 'row' if int(ix[1][1][1]) == 0 else 'col')
-                    return ('rc',)
+                        return ('rc', 1)
+                    if ix[0] == 'tuple' and len(ix[1]) == 2 and ix[1][1][0] == 'num' and int(ix[1][1][1]) in (0, 1, -1, -2):
+                        return ('idx', 'row' if int(ix[1][1][1]) in (0, -2) else 'col')
+                    if ix[0] == 'call' and ix[1] == 'slice':
+                        return ('rc', 2)
+                    return None
                 if args[0][0] == 'call' and args[0][1] in ('where', 'nonzero', 'unravel_index') and ix[0] == 'num' and \
                         (int(ix[1]) == 1 or args[0][1] == 'unravel_index'):
                     return ('idx', 'row' if int(ix[1]) == 0 else 'col')
                 if args[0][0] == 'call' and args[0][1] in ('where', 'nonzero') and ix[0] == 'num' and int(ix[1]) == 0:
                     return None
-                if d0 is not None and d0 != ('rc',):
+                if d0 is not None and d0[0] != 'rc':
                     return d0
                 return None
             if name in ('astype', 'copy', '.copy', 'asarray', 'array', 'int', 'py.int', 'f:int', 'atleast_1d', 'int64', 'ravel', '.ravel',
@@ -125,8 +131,8 @@ class Dims:
                                 if not (i_[1] == 'row' and c_[1] == 'col' and dy[1] == 'col'):
                                     self.note(e, i_, c_, f"cell number built as {i_[1]} index * number of {c_[1]}s + {dy[1]} index")
                             return None
-            if a == ('rc',) or b == ('rc',):
-                return ('rc',)
+            if (a and a[0] == 'rc') or (b and b[0] == 'rc'):
+                return a if (a and a[0] == 'rc') else b
             if a and b:
                 if a[1] != b[1]:
                     self.note(e, a, b, "row and column quantities added / subtracted")
@@ -137,7 +143,7 @@ class Dims:
             return a or b
         if k == 'cmp':
             a, b = self.of(e[2]), self.of(e[3])
-            if a and b and a != ('rc',) and b != ('rc',) and a[1] != b[1]:
+            if a and b and a[0] != 'rc' and b[0] != 'rc' and a[1] != b[1]:
                 self.note(e, a, b, "row quantity compared with a column quantity")
             return None
         if k in ('mul', 'div', 'pow'):
